@@ -103,6 +103,7 @@ static long verif_inc_depth (void) { long n = 0; incstate_t *p; for (p = inctop;
 
 static function_context_t function_context_stack[MAX_FUNCTION_DEPTH];
 static int last_function_context;
+static int refused_function_contexts; /* pushes refused at MAX_FUNCTION_DEPTH that still get their pop */
 function_context_t *current_function_context = 0;
 
 /*
@@ -1244,6 +1245,7 @@ void push_function_context () {
       VERIF_CTRACE ("fnctx.full", last_function_context + 1, MAX_FUNCTION_DEPTH);
 #endif
       yyerror ("Function pointers nested too deep");
+      refused_function_contexts++;
       return;
     }
   fc = &function_context_stack[++last_function_context];
@@ -1267,6 +1269,11 @@ void pop_function_context () {
 #ifdef NEOLITH_VERIF
   VERIF_CTRACE ("fnctx.pop", last_function_context, MAX_FUNCTION_DEPTH);
 #endif
+  if (refused_function_contexts)
+    {
+      refused_function_contexts--;
+      return;
+    }
   current_function_context = current_function_context->parent;
   last_function_context--;
 }
@@ -2606,6 +2613,7 @@ void start_new_file (int fd, const char* pre_text) {
   yyin_desc = fd; /* lexer input file descriptor */
   lex_fatal = 0;
   last_function_context = -1;
+  refused_function_contexts = 0;
   current_function_context = 0;
   cur_lbuf = &head_lbuf;
   cur_lbuf->outptr = cur_lbuf->buf_end = outptr = cur_lbuf->buf + (DEFMAX >> 1);
